@@ -91,6 +91,7 @@ type vhScript struct {
 	lockMissing bool
 	opsBeforeConn int
 	extraReads  int
+	oversizeN   int
 }
 
 func (s *vhScript) probe() {
@@ -138,8 +139,11 @@ func (s *vhScript) read(p []byte) (int, error) {
 	case vhFaultIO:
 		return s.record(p, 0, errVhIO)
 	case vhFaultOversize:
-		// the device keeps talking: every read fills the whole buffer
+		// the device keeps talking: the read delivers oversizeN bytes (0 = fills the whole buffer)
 		n := len(p)
+		if s.oversizeN > 0 && s.oversizeN < n {
+			n = s.oversizeN
+		}
 		for i := 0; i < n; i++ {
 			p[i] = 0
 		}
